@@ -132,6 +132,33 @@ var variants = []variant{
 	{"import-paths-q-p", "", []string{"subj/q", "subj/p"}},
 }
 
+// staleFor generates the derived file of an earlier version of the package (its last call site removed):
+// what a user's directory holds when a call has just been added.
+func staleFor(c *pkit.Ctx, files map[string]string) string {
+	src := files["p/calls.go"]
+	i := strings.LastIndex(src, "\nfunc ")
+	if i < 0 {
+		return ""
+	}
+	old := map[string]string{}
+	for k, v := range files {
+		old[k] = v
+	}
+	old["p/calls.go"] = src[:i+1]
+	dir := c.CaseDir()
+	defer os.RemoveAll(dir)
+	gorun.WriteFiles(dir, old)
+	res := gorun.RunGoderive(dir, "./p")
+	if res.Exit != 0 {
+		return ""
+	}
+	b, err := os.ReadFile(filepath.Join(dir, "p", gorun.DerivedFile))
+	if err != nil {
+		return ""
+	}
+	return string(b)
+}
+
 func runOnce(c *pkit.Ctx, files map[string]string, v variant) (string, string, error) {
 	dir := c.CaseDir()
 	defer os.RemoveAll(dir)
@@ -206,8 +233,24 @@ func TestProp(t *testing.T) {
 				return
 			}
 		}
-		for _, v := range variants[1:] {
-			h, text, err := runOnce(c, pr.files, v)
+		// half of the invocation variants start from a directory that still holds the derived file of an
+		// earlier version of the package
+		stale := staleFor(c, pr.files)
+		withStale := map[string]string{}
+		for k, v := range pr.files {
+			withStale[k] = v
+		}
+		if stale != "" {
+			withStale["p/"+gorun.DerivedFile] = stale
+		}
+		for vi, v := range variants[1:] {
+			input := pr.files
+			if stale != "" && vi%2 == int(c.Seed+int64(c.Shard))%2 {
+				input = withStale
+				v.name += "+stale-file"
+				c.Rep.Class("variant-with-stale-derived-file")
+			}
+			h, text, err := runOnce(c, input, v)
 			c.Rep.AddExtra("goderive_runs", 1)
 			if err != nil {
 				if strings.HasPrefix(err.Error(), "EXIT") {
